@@ -65,7 +65,20 @@ Definition read_value (buf : bytes) (offset size : N) (bigendian : bool) : outco
    takes zeros there.  No decoded field lies beyond the bytes read: version 0 needs n >= 96 (checked since
    /repo 07228cc; before it a 48..95-byte image took its root addresses from the stale buffer), versions 2/3
    need 12 + 4*8 = 44 <= 48 <= n. *)
-Definition dec_superblock (file : bytes) : outcome superblock' :=
+(* Switch for the repair notes/fixes/c06-superblock-sizes.patch (property C06, Props/C06Reader.v):
+   [false] = the code before it: in a version 2/3 superblock byte 9 (the format's size of offsets) is read as a flags byte,
+             byte 10 (the format's size of lengths) as the size of offsets and the size of lengths is 8; in a version 0
+             superblock the root addresses are read at the fixed positions 64, 80, 88 (right for 8-byte offsets only);
+   [true]  = the repaired code: versions 2/3 - when bytes 9 and 10 both hold a size the format allows (2, 4, 8) they are the
+             two sizes and the byte order is little-endian (otherwise the previous interpretation); version 0 - object
+             header address at 24 + 4*O + O, scratch-pad at 24 + 4*O + 2*O + 8.
+   [dec_superblock] is the variant of [superblock_sizes_repaired]; the ties of C11 / C07 read from the source tree under test
+   which variant it implements (tools/props/c06switch.py) and compare with dec_superblock_gen of that variant. *)
+Definition superblock_sizes_repaired : bool := true.
+
+Definition spec_size (s : N) : bool := (s =? 2) || (s =? 4) || (s =? 8).
+
+Definition dec_superblock_gen (repaired : bool) (file : bytes) : outcome superblock' :=
   let n := N.min (blen file) 128 in
   if n <? 48 then Err else
   let buf := firstn 128 file ++ zeros (N.to_nat (128 - n)) in
@@ -73,13 +86,14 @@ Definition dec_superblock (file : bytes) : outcome superblock' :=
   if negb (bytes_eqb sig signature) then Err else
   version <- index buf 8;;
   if negb ((version =? 0) || (version =? 2) || (version =? 3)) then Err else
-  if (version =? 0) && (n <? 96) then Err else          (* since /repo 07228cc *)
+  if (version =? 0) && (n <? 96) then Err else
   '(bigendian, offsetSize, lengthSize) <-
     (if version =? 0 then
        o <- index buf 13;; l <- index buf 14;; Ok (false, o, l)
      else
        b9 <- index buf 9;;
        sizesByte <- index buf 10;;
+       if repaired && spec_size b9 && spec_size sizesByte then Ok (false, b9, sizesByte) else
        let be := N.testbit b9 0 in
        if valid_size sizesByte then Ok (be, sizesByte, 8)
        else
@@ -95,9 +109,9 @@ Definition dec_superblock (file : bytes) : outcome superblock' :=
   let lengthSize := if lengthSize =? 0 then 8 else lengthSize in
   if negb (valid_size offsetSize && valid_size lengthSize) then Err else
   if version =? 0 then
-    root <- read_value buf 64 offsetSize bigendian;;
-    bt <- read_value buf 80 offsetSize bigendian;;
-    hp <- read_value buf 88 offsetSize bigendian;;
+    root <- read_value buf (if repaired then 24 + 4 * offsetSize + offsetSize else 64) offsetSize bigendian;;
+    bt <- read_value buf (if repaired then 24 + 4 * offsetSize + 2 * offsetSize + 8 else 80) offsetSize bigendian;;
+    hp <- read_value buf (if repaired then 24 + 4 * offsetSize + 2 * offsetSize + 8 + offsetSize else 88) offsetSize bigendian;;
     Ok {| spp_version := version; spp_offsize := offsetSize; spp_lensize := lengthSize;
           spp_bigendian := bigendian; spp_base := 0; spp_root := root; spp_superext := 0;
           spp_driverinfo := 0; spp_rootbtree := bt; spp_rootheap := hp |}
@@ -108,6 +122,8 @@ Definition dec_superblock (file : bytes) : outcome superblock' :=
     Ok {| spp_version := version; spp_offsize := offsetSize; spp_lensize := lengthSize;
           spp_bigendian := bigendian; spp_base := base; spp_root := root; spp_superext := ext;
           spp_driverinfo := 0; spp_rootbtree := 0; spp_rootheap := 0 |}.
+
+Definition dec_superblock (file : bytes) : outcome superblock' := dec_superblock_gen superblock_sizes_repaired file.
 
 (* What comes back.  Not the identity on three fields:
    - v0: the base address is written but the reader sets BaseAddress = 0; SuperExtension is not stored;
